@@ -36,6 +36,33 @@ Section Safety.
        | None => false
        end.
 
+  (** celeritas::min_element over an Intersections array (first minimum;
+      comparisons with NaN are false, so a leading NaN stays and a later NaN
+      is skipped); [None] = +infinity *)
+  Definition olt (a b : option T) : bool :=
+    match a, b with
+    | Some x, Some y => x <? y
+    | Some x, None => x =? x          (* x < +inf: false only for NaN (and +inf) *)
+    | None, _ => false
+    end.
+  Definition min_elt (l : list (option T)) : option T :=
+    match l with
+    | [] => None
+    | x :: r => fold_left (fun res y => if olt y res then y else res) r x
+    end.
+  (** celeritas::min for floating point = std::fmin: a NaN argument is ignored *)
+  Definition fmin_o (acc x : option T) : option T :=
+    match x with
+    | None => acc
+    | Some y =>
+        if y =? y then
+          match acc with
+          | None => Some y
+          | Some a => if y <? a then Some y else Some a
+          end
+        else acc
+    end.
+
   (** CalcSafetyDistance::operator()(S const&) *)
   Definition calc_safety (s : surface T) (pos : vec) : option T :=
     if negb (surf_simple_safety s) then Some n0
@@ -47,8 +74,8 @@ Section Safety.
         | On => Some n0
         | Outside =>
             let m1 := nofZ (-1) in
-            min_isect (surf_intersect s pos (V3 (vx dir * m1) (vy dir * m1) (vz dir * m1)) false)
-        | Inside => min_isect (surf_intersect s pos dir false)
+            min_elt (surf_intersect s pos (V3 (vx dir * m1) (vy dir * m1) (vz dir * m1)) false)
+        | Inside => min_elt (surf_intersect s pos dir false)
         end.
 
   (** SimpleSafetyGetter over the faces, as computed by UnitInserter::insert_volume:
@@ -60,12 +87,12 @@ Section Safety.
   (** SimpleUnitTracker::safety(pos, vol) *)
   Definition volume_safety (simple_flag : bool) (faces : list (surface T)) (pos : vec) : option T :=
     if negb simple_flag then Some n0
-    else fold_left (fun acc s => omin acc (calc_safety s pos)) faces None.
+    else fold_left (fun acc s => fmin_o acc (calc_safety s pos)) faces None.
 
   (** OrangeTrackView::find_safety(): min over levels of the tracker's safety
       at the level's local position *)
   Record level := LV { lv_flag : bool; lv_faces : list (surface T); lv_pos : vec }.
   Definition level_safety (l : level) : option T := volume_safety (lv_flag l) (lv_faces l) (lv_pos l).
   Definition find_safety (levels : list level) : option T :=
-    fold_left (fun acc l => omin acc (level_safety l)) levels None.
+    fold_left (fun acc l => fmin_o acc (level_safety l)) levels None.
 End Safety.
